@@ -178,6 +178,10 @@ func (*hconc) Run(rc *core.RunCtx) *core.RunResult {
 				si = (rc.Idx + t.Intn(2)) % len(samples)
 			}
 			j = &concJob{s: samples[si], prog: concProgs[t.Intn(len(concProgs))]}
+			if rc.Race && i == 0 {
+				// the twins of a race run display every value: all lazy conversions of the decoder run
+				j.prog = concProgs[t.Intn(3)]
+			}
 			j.optForce = t.Intn(8) == 0 && j.s.Format != ""
 			if (i == 0 && rc.Race && concRuns == 1) || t.Intn(12) == 0 {
 				// probing garbage walks every decoder: in the first run of a race worker
